@@ -164,12 +164,15 @@ BytePool == {<<>>, <<97>>, <<195, 169>>, <<195>>, <<169>>, <<226, 130, 172>>, <<
              <<224, 164, 168>>, <<97, 226, 130, 172, 98>>}
 CodePool == {<<>>, <<97>>, <<233>>, <<8364>>, <<128512>>, <<55296>>, <<57343>>, <<1114111>>, <<1114112>>, <<-1>>, <<97, 55296>>, <<2344>>, <<97, 8364, 98>>, <<0>>}
 
+(* slice bounds: everything around the sequence, plus the two ends of the integer domain (range bounds saturate: 2^63 and
+   +inf become isize::MAX, -2^63 and -inf isize::MIN) *)
+SliceBounds(n) == (-n)..n \cup {Huge, -Huge}
 Cases ==
       (IF "index" \in Ops THEN {[op |-> "index", s |-> s, a |-> a, t |-> <<>>, b |-> 0, e |-> 0, u |-> <<>>] : s \in AllStrings, a \in IndexArgs(3 * MaxChars)} ELSE {})
  \cup (IF "slice" \in Ops THEN {[op |-> "slice", s |-> s, a |-> <<"nil">>, t |-> <<>>, b |-> b, e |-> e, u |-> <<>>] :
-                                  s \in AllStrings, b \in (-3 * MaxChars - 1)..(3 * MaxChars + 1), e \in (-3 * MaxChars - 1)..(3 * MaxChars + 1)} ELSE {})
+                                  s \in AllStrings, b \in SliceBounds(3 * MaxChars + 1), e \in SliceBounds(3 * MaxChars + 1)} ELSE {})
  \cup (IF "seq" \in Ops THEN {[op |-> o, s |-> xs, a |-> a, t |-> <<>>, b |-> 0, e |-> 0, u |-> <<>>] : o \in {"vindex", "tindex"}, xs \in VecPool, a \in IndexArgs(3)}
-                         \cup {[op |-> o, s |-> xs, a |-> <<"nil">>, t |-> <<>>, b |-> b, e |-> e, u |-> <<>>] : o \in {"vslice", "tslice"}, xs \in VecPool, b \in -5..5, e \in -5..5} ELSE {})
+                         \cup {[op |-> o, s |-> xs, a |-> <<"nil">>, t |-> <<>>, b |-> b, e |-> e, u |-> <<>>] : o \in {"vslice", "tslice"}, xs \in VecPool, b \in SliceBounds(5), e \in SliceBounds(5)} ELSE {})
  \cup (IF "unary" \in Ops THEN {[op |-> o, s |-> s, a |-> <<"nil">>, t |-> <<>>, b |-> 0, e |-> 0, u |-> <<>>] :
                                   o \in {"len", "count_chars", "is_alpha", "is_digit", "is_hexdigit", "to_bytes", "to_code_points", "iterate"}, s \in AllStrings} ELSE {})
  \cup (IF "cbi" \in Ops THEN {[op |-> "char_byte_index", s |-> s, a |-> a, t |-> <<>>, b |-> 0, e |-> 0, u |-> <<>>] : s \in AllStrings, a \in IndexArgs(MaxChars)} ELSE {})
